@@ -25,7 +25,7 @@ package runner
 
 //@ func (*TaskRunner).execute
 //@   requires r != nil && t != nil && (job != nil ==> compiled[job]) && compiledClosed()
-//@   modifies t.Start, t.End, t.ExitCode, t.Errored, t.Error, runN, runJob, runErr, executor.Job.Dir, executor.DefaultExecutor.*
+//@   modifies t.Start, t.End, t.ExitCode, t.Errored, t.Error, runN, runJob, runErr, cdom, cval, executor.Job.Dir, executor.DefaultExecutor.*
 //@   ensures #log-prefix runN >= old(runN) && (forall i int :: i < old(runN) ==> runJob[i] == old(runJob[i]) && runErr[i] == old(runErr[i]))
 //@   ensures #C06.nothing-to-run job == nil ==> runN == old(runN) && result == nil
 //@   ensures #C06.first runN > old(runN) ==> runJob[old(runN)] == job
@@ -81,7 +81,7 @@ package runner
 
 //@ func (*TaskCompiler).CompileCommand
 //@   requires tc != nil && executionCtx != nil && tc.variables != nil && vars != nil && env != nil && compiledClosed()
-//@   modifies compiled
+//@   modifies compiled, cdom, cval
 //@   ensures result#1 == nil ==> result != nil && fresh(result) && result.Vars != nil && result.Next == nil && result.Timeout == timeout && result.Env == env && result.Stdin == stdin && result.Stdout == stdout && result.Stderr == stderr
 //@   ensures result#1 == nil ==> compiled[result]
 //@   ensures (forall k *executor.Job :: old(compiled[k]) ==> compiled[k]) && compiledClosed()
@@ -101,7 +101,7 @@ package runner
 //@ func (*TaskCompiler).CompileTask
 //@   waive safe.assert "reflect Kind()==String is taken to imply dynamic type string: no named string types are stored in variable containers"
 //@   requires tc != nil && tc.variables != nil && t != nil && t.Variables != nil && env != nil && vars != nil && executionContext != nil && compiledClosed()
-//@   modifies compiled, executor.Job.Next, ccN, ccV, ccC, ccCmd, ccJob
+//@   modifies compiled, executor.Job.Next, ccN, ccV, ccC, ccCmd, ccJob, cdom, cval
 //@   ensures result#1 == nil ==> (result != nil ==> compiled[result]) && compiledClosed()
 //@   ensures !exitOK(result#1)
 //@   ensures #C06.empty result#1 == nil && (len(t.Commands) == 0 || (t.Variations != nil && len(t.Variations) == 0)) ==> ccN == old(ccN) && result == nil
@@ -144,14 +144,14 @@ package runner
 
 //@ func (*TaskRunner).checkTaskCondition
 //@   requires runnerOK(r) && t != nil && executionContext != nil && compiledClosed()
-//@   modifies runN, runJob, runErr, compiled, executor.Job.Dir, executor.DefaultExecutor.*
+//@   modifies runN, runJob, runErr, compiled, cdom, cval, executor.Job.Dir, executor.DefaultExecutor.*
 //@   ensures #log-prefix runN >= old(runN) && runN <= old(runN) + 1 && (forall i int :: i < old(runN) ==> runJob[i] == old(runJob[i]) && runErr[i] == old(runErr[i]))
 //@   ensures #C06.no-condition t.Condition == "" ==> result && result#1 == nil && runN == old(runN)
 //@   ensures compiledClosed()
 
 //@ func (*TaskRunner).before
 //@   requires runnerOK(r) && t != nil && execContext != nil && vars != nil && env != nil && compiledClosed()
-//@   modifies runN, runJob, runErr, compiled, executor.Job.Dir, executor.DefaultExecutor.*
+//@   modifies runN, runJob, runErr, compiled, cdom, cval, executor.Job.Dir, executor.DefaultExecutor.*
 //@   ensures #log-prefix runN >= old(runN) && (forall i int :: i < old(runN) ==> runJob[i] == old(runJob[i]) && runErr[i] == old(runErr[i]))
 //@   ensures #C06.before-all-ok result == nil ==> runN == old(runN) + len(t.Before) && (forall i int :: old(runN) <= i && i < runN ==> runErr[i] == nil)
 //@   ensures #C06.before-stops-at-first-failure result != nil ==> runN <= old(runN) + len(t.Before) && (forall i int :: old(runN) <= i && i + 1 < runN ==> runErr[i] == nil)
@@ -164,7 +164,7 @@ package runner
 
 //@ func (*TaskRunner).after
 //@   requires runnerOK(r) && t != nil && execContext != nil && vars != nil && env != nil && compiledClosed()
-//@   modifies runN, runJob, runErr, compiled, executor.Job.Dir, executor.DefaultExecutor.*
+//@   modifies runN, runJob, runErr, compiled, cdom, cval, executor.Job.Dir, executor.DefaultExecutor.*
 //@   ensures #log-prefix runN >= old(runN) && runN <= old(runN) + len(t.After) && (forall i int :: i < old(runN) ==> runJob[i] == old(runJob[i]) && runErr[i] == old(runErr[i]))
 //@   ensures compiledClosed()
 //@   loop 1 "range t.After"
